@@ -238,7 +238,7 @@ def narrowing(run, fx):
     ceng = intervals.analyse(fixture_facts("r9_control"), ("r9_control",))
     flagged = {p.rsplit("::", 1)[-1] for (p, k) in ceng.alarms if k[0] == "narrowing"}
     run.control(rule, "bad_narrow" in flagged, "fixtures/r9_control: bad_narrow must be reported (got %s)" % sorted(flagged))
-    run.check("good_narrow" not in flagged, rule, "negative-control", "the range-checked cast of the control crate is not reported",
+    run.check(not ({"good_narrow", "good_flag"} & flagged), rule, "negative-control", "the range-checked casts of the control crate are not reported",
               "the engine reports the guarded cast of the control crate")
     res = intervals.results(fx)
     sites = [x for x in res["sites"] if x["kind"] == "narrowing"]
